@@ -497,6 +497,15 @@ def build(suite, info):
         return Case(suite, r, impl, roundtrip_oracle(ty, fmt, g, name, info.get("via", "stringio")),
                     cls=info.get("cls") or "{}:{}:{}".format(fmt, ty, info.get("shape", "")),
                     nontrivial=graph_nontrivial(g), info=info)
+    if suite == "rtrip" and len(info["g"]["edges"]) > 40000:
+        # files of about 1 MiB (thorough tier): the list-based model needs minutes per graph (its edge-set test is a linear
+        # scan, as transcribed), so only the real round trip is checked, by the oracle — which is what the size is there for
+        ty, fmt, g, name = info["ty"], info["fmt"], info["g"], info.get("name", "G")
+
+        def impl():
+            return ok("-")
+        return Case(suite, "ack3p", impl, roundtrip_oracle(ty, fmt, g, name, info.get("via", "stringio")),
+                    cls="{}:{}:{}:oracle-only".format(fmt, ty, info.get("shape", "")), nontrivial=True, info=info)
     if suite == "rtrip":
         ty, fmt, g, name = info["ty"], info["fmt"], info["g"], info.get("name", "G")
 
